@@ -2032,4 +2032,98 @@ example : (reportsOf (bounces (attempt cexCfg 1 exNow (some .body) exQ).2)).map
 example : rcvdField badNameCfg.idna false [104] = none ∧ rcvdField badNameCfg.idna false [105] = some [105] ∧
     rcvdField badNameCfg.idna false [] = none := by decide
 
+/-! ### Round 11: the text of an error is opaque
+
+`toSMTPErr` never READS the reply text: replacing every text inside an error value by anything else
+(`retext f`) leaves the stored reply code and status exactly what they were, and the stored text is the
+text the error carried, as a whole, under the same replacement.  In particular a text that begins like an
+enhanced status code, an IP address or a version number (`192.0.2.25 is listed …`) decides nothing. -/
+
+/-- The same error value with every annotated text replaced through `f`. -/
+def retext (f : List Nat → List Nat) : Err → Err
+  | .plain => .plain
+  | .deadline => .deadline
+  | .net t => .net t
+  | .smtp c en m => .smtp c en (f m)
+  | .smtpWrap c en m i => .smtpWrap c en (f m) (retext f i)
+  | .withTemp t i => .withTemp t (retext f i)
+  | .withFields c en m i => .withFields c en (m.map f) (retext f i)
+  | .rawSmtp c en m => .rawSmtp c en (f m)
+
+/-- `f` applied to an annotated text; the two constant texts stay. -/
+def retextMsg (f : List Nat → List Nat) : Msg → Msg
+  | .text m => .text (f m)
+  | m => m
+
+theorem tempOf_retext (f : List Nat → List Nat) (e : Err) : tempOf (retext f e) = tempOf e := by
+  induction e with
+  | withFields c en m i ih => simpa [retext, tempOf] using ih
+  | _ => simp [retext, tempOf]
+
+theorem codeField_retext (f : List Nat → List Nat) (e : Err) : codeField (retext f e) = codeField e := by
+  induction e with
+  | withFields c en m i ih => cases c <;> simp [retext, codeField, ih]
+  | withTemp t i ih => simpa [retext, codeField] using ih
+  | _ => simp [retext, codeField]
+
+theorem enchField_retext (f : List Nat → List Nat) (e : Err) : enchField (retext f e) = enchField e := by
+  induction e with
+  | withFields c en m i ih => cases en <;> simp [retext, enchField, ih]
+  | withTemp t i ih => simpa [retext, enchField] using ih
+  | _ => simp [retext, enchField]
+
+theorem msgField_retext (f : List Nat → List Nat) (e : Err) :
+    msgField (retext f e) = (msgField e).map f := by
+  induction e with
+  | withFields c en m i ih => cases m <;> simp [retext, msgField, ih]
+  | withTemp t i ih => simpa [retext, msgField] using ih
+  | _ => simp [retext, msgField]
+
+/-- The stored reply of the re-texted error is the stored reply of the error with ONLY the text
+replaced - as a whole, by the same replacement. -/
+theorem C18_stored_reply_does_not_read_the_text (f : List Nat → List Nat) (e : Err) :
+    toSMTPErr (retext f e) =
+      { toSMTPErr e with msg := retextMsg f (toSMTPErr e).msg } := by
+  cases e with
+  | rawSmtp c en m => simp [retext, toSMTPErr, retextMsg, isTemporaryOrUnspec, tempOf]
+  | plain => simp [retext, toSMTPErr, retextMsg, msgOf, msgField]; exact ⟨rfl, rfl⟩
+  | deadline => simp [retext, toSMTPErr, retextMsg, msgOf, msgField]; exact ⟨rfl, rfl⟩
+  | net t => simp [retext, toSMTPErr, retextMsg, msgOf, msgField]; exact ⟨rfl, rfl⟩
+  | smtp c en m => simp [retext, toSMTPErr, retextMsg, msgOf, msgField, codeField, enchField, isTemporaryOrUnspec, tempOf]
+  | smtpWrap c en m i =>
+    simp [retext, toSMTPErr, retextMsg, msgOf, msgField, codeField, enchField, isTemporaryOrUnspec, tempOf]
+  | withTemp t i =>
+    simp only [retext, toSMTPErr, isTemporaryOrUnspec, tempOf, codeField, enchField, msgField,
+      codeField_retext, enchField_retext, msgField_retext]
+    cases msgField i <;> simp [msgOf, retextMsg] <;> exact ⟨rfl, rfl⟩
+  | withFields c en m i =>
+    have h1 := codeField_retext f (.withFields c en m i)
+    have h2 := enchField_retext f (.withFields c en m i)
+    have h3 := msgField_retext f (.withFields c en m i)
+    have h4 := tempOf_retext f (.withFields c en m i)
+    simp only [retext] at h1 h2 h3 h4
+    simp only [retext, toSMTPErr, isTemporaryOrUnspec, h1, h2, h3, h4]
+    cases msgField (.withFields c en m i) <;> simp [msgOf, retextMsg] <;> exact ⟨rfl, rfl⟩
+
+/-- Code and status of a stored error are functions of everything BUT the texts. -/
+theorem C18_status_independent_of_text (f : List Nat → List Nat) (e : Err) :
+    (toSMTPErr (retext f e)).code = (toSMTPErr e).code ∧
+    storedEnch (toSMTPErr (retext f e)) = storedEnch (toSMTPErr e) := by
+  rw [C18_stored_reply_does_not_read_the_text]
+  exact ⟨rfl, rfl⟩
+
+/-- The stored text IS the annotated text of the error (outermost annotation), nothing cut off. -/
+theorem C18_stored_text_is_whole_text (e : Err) (m : List Nat) (h : msgField e = some m)
+    (hraw : ∀ c en t, e ≠ .rawSmtp c en t) : (toSMTPErr e).msg = .text m := by
+  cases e with
+  | rawSmtp c en t => exact absurd rfl (hraw c en t)
+  | _ => simp_all [toSMTPErr, msgOf, msgField]
+
+-- a reply without enhanced code whose text is "192.0.2.25 x": status 5.0.0, the text whole
+example : toSMTPErr (.smtp 550 ⟨0, 0, 0⟩ [49, 57, 50, 46, 48, 46, 50, 46, 50, 53, 32, 120]) =
+    ⟨550, some ⟨5, 0, 0⟩, .text [49, 57, 50, 46, 48, 46, 50, 46, 50, 53, 32, 120]⟩ := by decide
+-- "4.2.2 x" in the text of a 550 without enhanced code: still 5.0.0, the text whole
+example : toSMTPErr (.withFields (some 550) none (some [52, 46, 50, 46, 50, 32, 120]) .plain) =
+    ⟨550, some ⟨4, 0, 0⟩, .text [52, 46, 50, 46, 50, 32, 120]⟩ := by decide
+
 end MaddyVerif.C18
